@@ -572,6 +572,15 @@ Section Network.
     {| n_input := n_input n; n_layers := n_layers n; n_loopbacks := n_loopbacks n;
        n_loopacc := loop; n_connect := n_connect n; n_skipacc := skip;
        n_optimizer := n_optimizer n; n_objective := n_objective n |}.
+  (* direct assignment of the public fields `loopbacks` / `connect` (as the crate's examples do) *)
+  Definition set_loopbacks (n : network) (l : list (nat * (nat * nat * bool))) : network :=
+    {| n_input := n_input n; n_layers := n_layers n; n_loopbacks := l;
+       n_loopacc := n_loopacc n; n_connect := n_connect n; n_skipacc := n_skipacc n;
+       n_optimizer := n_optimizer n; n_objective := n_objective n |}.
+  Definition set_connect (n : network) (l : list (nat * nat)) : network :=
+    {| n_input := n_input n; n_layers := n_layers n; n_loopbacks := n_loopbacks n;
+       n_loopacc := n_loopacc n; n_connect := l; n_skipacc := n_skipacc n;
+       n_optimizer := n_optimizer n; n_objective := n_objective n |}.
   Definition set_objective (n : network) (o : objective) (cl : option (T * T)) : network :=
     {| n_input := n_input n; n_layers := n_layers n; n_loopbacks := n_loopbacks n;
        n_loopacc := n_loopacc n; n_connect := n_connect n; n_skipacc := n_skipacc n;
